@@ -1,3 +1,161 @@
+(* C19 — one event loop per pipeline; async pipelines never leave the caller's loop.
+   Only statements closed by `exact`; the model is Ext/LoopPercolate.v, proofs are in Ext/LoopPercolateProofs.v.
+
+   cfg = (fix_init, fix_join, has_client) selects the variant of Stream.__init__ (see LoopPercolate.v);
+   /repo as found is `as_found` = (false,false,false).  Theorems that need the repaired __init__ say
+   `fix_init c = true`; everything else holds for every variant, in particular for the code as found. *)
 From Coq Require Import List Arith Bool.
-From SZ Require Import Ext.LoopPercolate Ext.LoopPercolateProofs Ext.LoopPercolateCases.
+From SZ Require Import Ext.LoopPercolate.
+From SZ Require Import Ext.LoopPercolateProofs.
+From SZ Require Import Ext.LoopPercolateCases.
 Import ListNotations.
+
+(* the percolation fuel chosen by the model is always enough: OutOfFuel never hides an outcome *)
+Theorem C19_fuel_enough : forall c g r, construct c g r <> OutOfFuel.
+Proof. exact construct_fuel_enough. Qed.
+Print Assumptions C19_fuel_enough.
+
+(* ---- one loop / one mode per connected pipeline, over ALL sessions of successful constructions ---------- *)
+(* Session c [] rs g: the requests rs, issued in order from the empty graph, all succeed and give g; every
+   request refers to existing nodes and satisfies join_ok: either the variant percolates on joins, or all
+   upstreams of the request agree on loop and on asynchronous-vs-blocking (always true for <= 1 upstream). *)
+Theorem C19_one_loop : forall c rs g i j,
+  Session c [] rs g -> connected g i j ->
+  (forall la lb, gl g i = Some la -> gl g j = Some lb -> la = lb) /\
+  (forall a b, ga g i = Some a -> ga g j = Some b -> a = b).
+Proof. exact one_loop_sessions. Qed.
+Print Assumptions C19_one_loop.
+
+(* stronger: connected nodes have the SAME loop field (both unset or both the same loop) and the same
+   asynchronous-vs-blocking mode *)
+Theorem C19_one_loop_strong : forall c g i j,
+  Built c g -> connected g i j -> gl g i = gl g j /\ is_true (ga g i) = is_true (ga g j).
+Proof. exact one_loop_strong. Qed.
+Print Assumptions C19_one_loop_strong.
+
+Theorem C19_step_preserves_invariants : forall c g r g',
+  W g -> Edge g -> valid g r -> join_ok c g r -> construct c g r = Ok g' -> W g' /\ Edge g'.
+Proof. exact construct_inv. Qed.
+Print Assumptions C19_step_preserves_invariants.
+
+(* the linear fluent API (every node has at most one upstream) needs no side condition *)
+Theorem C19_linear_sessions_unconditional : forall c g r, length (r_ups r) <= 1 -> join_ok c g r.
+Proof. exact single_upstream_join_ok. Qed.
+Print Assumptions C19_linear_sessions_unconditional.
+
+(* the side condition is necessary for the code as found (and with only __init__ repaired): joining an
+   asynchronous and a blocking pipeline succeeds and leaves one connected pipeline on two loops *)
+Theorem C19_one_loop_join_refuted : forall fi,
+  exists rs g, build (mkCfg fi false false) [] rs = Some g /\ connected g 0 1 /\
+    gl g 0 = Some Current /\ gl g 1 = Some Background /\ ga g 0 = Some true /\ ga g 1 = Some false.
+Proof. exact one_loop_join_refuted. Qed.
+Print Assumptions C19_one_loop_join_refuted.
+
+(* ---- inherits ------------------------------------------------------------------------------------------ *)
+Theorem C19_inherits : forall c g r l,
+  fix_join c = false -> r_async r = None -> r_loop r = None -> first_loop g (r_ups r) = Some l ->
+  construct c g r = Ok (finish g r (Some l) (first_true g (r_ups r))).
+Proof. exact inherits. Qed.
+Print Assumptions C19_inherits.
+
+Theorem C19_inherits_single : forall c g r u l g',
+  r_async r = None -> r_loop r = None -> r_ups r = [u] -> u < length g -> gl g u = Some l ->
+  construct c g r = Ok g' ->
+  gl g' (length g) = Some l /\ is_true (ga g' (length g)) = is_true (ga g u).
+Proof. exact inherits_single. Qed.
+Print Assumptions C19_inherits_single.
+
+(* ---- conflict_raises ----------------------------------------------------------------------------------- *)
+Theorem C19_conflict_raises_loop : forall c g r l u l',
+  r_loop r = Some l -> In u (r_ups r) -> u < length g -> gl g u = Some l' -> l' <> l ->
+  exists g', construct c g r = Raise g' /\ fills g g'.
+Proof. exact conflict_raises_loop. Qed.
+Print Assumptions C19_conflict_raises_loop.
+
+Theorem C19_conflict_raises_mode : forall c g r a u a',
+  r_async r = Some a -> In u (r_ups r) -> u < length g -> ga g u = Some a' -> a' <> a ->
+  exists g', construct c g r = Raise g' /\ fills g g'.
+Proof. exact conflict_raises_mode. Qed.
+Print Assumptions C19_conflict_raises_mode.
+
+(* graph unchanged when the conflicting node is the first upstream itself *)
+Theorem C19_conflict_mode_unchanged : forall c g r a u rest a',
+  r_async r = Some a -> r_ups r = u :: rest -> u < length g -> ga g u = Some a' -> a' <> a ->
+  construct c g r = Raise g.
+Proof. exact conflict_mode_unchanged. Qed.
+Theorem C19_conflict_loop_unchanged : forall c g r l u rest l',
+  fix_join c = false -> r_async r = None -> r_loop r = Some l -> r_ups r = u :: rest -> u < length g ->
+  gl g u = Some l' -> l' <> l -> construct c g r = Raise g.
+Proof. exact conflict_loop_unchanged. Qed.
+Print Assumptions C19_conflict_mode_unchanged.
+Print Assumptions C19_conflict_loop_unchanged.
+
+(* in general a raising constructor may already have filled unset fields of nodes it walked over (the Python
+   code mutates before it finds the conflict) — but it never overwrites a set field and never changes edges *)
+Theorem C19_raise_only_fills : forall c g r g', construct c g r = Raise g' -> fills g g'.
+Proof. exact construct_raise_fills. Qed.
+Print Assumptions C19_raise_only_fills.
+
+(* ---- declared_async_on_current (repaired __init__) / refuted (as found) --------------------------------- *)
+Theorem C19_declared_async_on_current : forall c g r g',
+  fix_init c = true -> r_async r = Some true -> r_loop r = None -> first_loop g (r_ups r) = None ->
+  construct c g r = Ok g' ->
+  gl g' (length g) = Some Current /\ ga g' (length g) = Some true.
+Proof. exact declared_async_on_current. Qed.
+Print Assumptions C19_declared_async_on_current.
+
+Theorem C19_declared_async_source : forall c g ens,
+  fix_init c = true ->
+  construct c g (mkReq [] (Some true) None ens) = Ok (g ++ [mkNode (Some Current) (Some true) [] []]).
+Proof. exact declared_async_source. Qed.
+Print Assumptions C19_declared_async_source.
+
+Theorem C19_declared_async_on_current_refuted :
+  exists g r, r_async r = Some true /\ r_loop r = None /\ first_loop g (r_ups r) = None /\
+    exists g', construct as_found g r = Ok g' /\
+               gl g' (length g) = Some Background /\ ga g' (length g) = Some false.
+Proof. exact declared_async_on_current_refuted. Qed.
+Print Assumptions C19_declared_async_on_current_refuted.
+
+Theorem C19_declared_async_raises_refuted :
+  exists g r, r_async r = Some true /\ r_loop r = None /\ first_loop g (r_ups r) = None /\
+    (forall i, ga g i <> Some false) /\
+    construct as_found g r = Raise [mkNode None (Some true) [] []].
+Proof. exact declared_async_raises_refuted. Qed.
+Print Assumptions C19_declared_async_raises_refuted.
+
+(* ---- fallback_background -------------------------------------------------------------------------------- *)
+Theorem C19_fallback_background : forall c g r g',
+  r_ensure r = true -> r_async r = None -> r_loop r = None ->
+  first_loop g (r_ups r) = None -> first_true g (r_ups r) = None ->
+  construct c g r = Ok g' ->
+  gl g' (length g) = Some (bg_loop c) /\ ga g' (length g) = Some false.
+Proof. exact fallback_background. Qed.
+Print Assumptions C19_fallback_background.
+
+Theorem C19_fallback_background_source : forall c g,
+  construct c g (mkReq [] None None true) = Ok (g ++ [mkNode (Some (bg_loop c)) (Some false) [] []]).
+Proof. exact fallback_background_source. Qed.
+Print Assumptions C19_fallback_background_source.
+
+(* ---- non-vacuity: a fan-out / fan-in session meets the hypotheses of C19_one_loop ------------------------ *)
+(* s = Stream(); m = s.map(f); b = s.buffer(2); u = m.union(b); w = u.timed_window(1) *)
+Definition nv_session : list request :=
+  [mkReq [] None None false; mkReq [0] None None false; mkReq [0] None None true;
+   mkReq [1; 2] None None false; mkReq [3] None None true].
+
+Example C19_one_loop_nonvacuous :
+  exists g, Session repaired [] nv_session g /\ connected g 1 4 /\
+            gl g 1 = Some Background /\ gl g 4 = Some Background /\ ga g 1 = Some false /\ length g = 5.
+Proof.
+  eexists. split.
+  - unfold nv_session. cbn [Session].
+    repeat (split; [intros u Hu; simpl in Hu; simpl; repeat (destruct Hu as [<-|Hu]; [auto with arith|]); tauto|];
+            split; [right; intros u u' Hu Hu'; simpl in Hu, Hu';
+                    repeat (destruct Hu as [<-|Hu]; [|]); try tauto;
+                    repeat (destruct Hu' as [<-|Hu']; [|]); try tauto; vm_compute; auto|];
+            eexists; split; [vm_compute; reflexivity|]).
+    reflexivity.
+  - split; [|vm_compute; auto].
+    apply conn_trans with (j := 3); [apply conn_down|apply conn_down]; simpl; auto.
+Qed.
